@@ -363,11 +363,54 @@ pub fn run(args: &Args, rep: &mut Report) {
         cases.push(("unicode".into(), text, ENTRIES[i % ENTRIES.len()]));
         rep.count("family_unicode", 1);
     }
+    if args.miri() {
+        // no sub-processes inside the Miri interpreter: a seed-dependent sample of the cases runs in-process
+        // (Miri itself reports a deadlock or undefined behaviour and ends the process with the case on record)
+        let sampled: Vec<(String, String, Entry)> = cases
+            .iter()
+            .enumerate()
+            .filter(|(i, c)| c.0 != "generated" && c.0 != "mutated" && c.0 != "unicode" && args.keep(*i, 9) || (c.0 == "generated" || c.0 == "mutated" || c.0 == "unicode"))
+            .map(|(_, c)| c.clone())
+            .collect();
+        run_inprocess(args, rep, &sampled);
+        return;
+    }
     run_batches(args, rep, &cases);
     // (4) nesting depth / chain length probes in sub-processes (shard 1)
     if args.shard == 1 % args.nshards {
         depth_probes(args, rep);
     }
+}
+
+fn run_inprocess(args: &Args, rep: &mut Report, cases: &[(String, String, Entry)]) {
+    use std::io::Write;
+    lockmon::set_level(1);
+    lockmon::set_panic_on_relock(true);
+    let mut results: Vec<Option<(String, String)>> = vec![None; cases.len()];
+    let progress = args.out.join(format!("c11-miri-progress-{}.txt", args.shard));
+    for (i, (_, text, e)) in cases.iter().enumerate() {
+        // the case in progress is on disk before it runs: if Miri ends the process the driver attributes its report
+        if let Ok(mut f) = std::fs::File::create(&progress) {
+            let _ = writeln!(f, "{}", json!({"expression": text, "entry": entry_name(*e)}));
+        }
+        let o = run_case(text, *e, Duration::from_secs(600));
+        let (kind, detail) = match &o {
+            Outcome::Value => ("value", String::new()),
+            Outcome::Error => ("error", String::new()),
+            Outcome::Panic(p) => ("panic", p.clone()),
+            Outcome::SelfDeadlock(p) => ("selfdeadlock", p.clone()),
+            Outcome::PostState(p) => ("poststate", p.clone()),
+            Outcome::Timeout => ("timeout", String::new()),
+        };
+        results[i] = Some((kind.to_string(), detail));
+        if kind == "timeout" {
+            break;
+        }
+    }
+    let _ = std::fs::remove_file(&progress);
+    judge_results(rep, cases, &results);
+    lockmon::set_level(0);
+    lockmon::set_panic_on_relock(false);
 }
 
 fn entry_name(e: Entry) -> &'static str {
@@ -545,6 +588,10 @@ fn run_batches(args: &Args, rep: &mut Report, cases: &[(String, String, Entry)])
         }
     }
     rep.count("batch_child_processes", restarts as u64);
+    judge_results(rep, cases, &results);
+}
+
+fn judge_results(rep: &mut Report, cases: &[(String, String, Entry)], results: &[Option<(String, String)>]) {
     for (i, (label, text, entry)) in cases.iter().enumerate() {
         let (kind, detail) = match &results[i] {
             Some(r) => r.clone(),
